@@ -34,7 +34,7 @@ func init() {
 			{ID: "R01.9", Template: "T-SIBLING", Text: "both engines test alignment and bounds of an atomic access in the same order (known finding: they do not)", Min: 1},
 			{ID: "R01.10", Template: "T-SIBLING", Text: "memory-writing, atomic and control SSA opcodes are classified strict, trapping ones keep their trap", Min: 25},
 			{ID: "R01.11", Template: "T-MUSTPASS", Text: "the bounds-check elision cache is merged conservatively at joins (same analysis as C02 R02.7)", Min: 2},
-			{ID: "R01.12", Template: "T-MUSTPASS", Text: "the register allocator stores a virtual register at the point where it takes its real register (genuine defects found and fixed: in-place modifications and second definitions were lost)", Min: 2},
+			{ID: "R01.12", Template: "T-MUSTPASS", Text: "the register allocator stores a virtual register at the point where it takes its real register (genuine defects found and fixed: in-place modifications and second definitions were lost)", Min: 1},
 			{ID: "R01.13", Template: "T-TYPESTATE", Text: "amd64 lowerings modify in place only temporaries of the same lowering, never the register of an SSA value", Min: 1},
 			{ID: "R01.14", Template: "T-REPR", Text: "amd64 instructions that keep part of their destination declare it as used (genuine defects found and fixed: xmmCMov, MOVSD register form)", Min: 1},
 			{ID: "R01.15", Template: "T-SIBLING", Text: "memory.atomic.wait tests the memory's sharedness after the address checks on both engines (genuine defect found and fixed)", Min: 1},
